@@ -355,9 +355,10 @@ func (model Model) SortPoliciesByPriority() error {
 		}
 		policies := assertion.Policy
 		sort.SliceStable(policies, func(i, j int) bool {
+			// rules whose priority does not parse sort after all others, keeping their order
 			p1, err := strconv.Atoi(policies[i][priorityIndex])
 			if err != nil {
-				return true
+				return false
 			}
 			p2, err := strconv.Atoi(policies[j][priorityIndex])
 			if err != nil {
